@@ -333,6 +333,11 @@ def impl_oui_lookup(k, rows):
     assert o == k and o == str(o) and not (o != k), "OUI equality with its int / text form"
     e = netaddr.EUI(k << 24)
     assert _oui_recs(e.oui) == out, "EUI.oui differs from OUI(k)"
+    # the registry lookup of an address does not depend on how the address prints: every dialect (16-, 24-, 48-bit words), EUI-64 too
+    for d in (netaddr.mac_cisco, netaddr.mac_bare, netaddr.mac_pgsql, netaddr.mac_unix):
+        assert _oui_recs(netaddr.EUI(k << 24, dialect=d).oui) == out, "EUI(.., dialect=%s).oui differs from OUI(k)" % d.__name__
+    for d in (netaddr.eui64_cisco, netaddr.eui64_bare, netaddr.eui64_base):
+        assert _oui_recs(netaddr.EUI(k << 40, version=64, dialect=d).oui) == out, "EUI-64(.., dialect=%s).oui differs from OUI(k)" % d.__name__
     if not e.is_iab():
         r = e.info["OUI"]
         assert [r["idx"], u8(r["org"]), [u8(a) for a in r["address"]], r["offset"], r["size"]] == out[0], "EUI.info['OUI']"
